@@ -1,0 +1,20 @@
+//go:build verif
+
+package pkcs12
+
+// Access to the unexported helpers of this package for the verification harness
+// (/verif, property C17).  Nothing here changes behaviour.
+
+// VerifBmpString calls bmpString.
+func VerifBmpString(s string) ([]byte, error) { return bmpString(s) }
+
+// VerifDecodeBMPString calls decodeBMPString.
+func VerifDecodeBMPString(b []byte) (string, error) { return decodeBMPString(append([]byte{}, b...)) }
+
+// VerifPbkdf calls pbkdf with a caller-supplied hash function.
+func VerifPbkdf(hash func([]byte) []byte, u, v int, salt, password []byte, r int, ID byte, size int) []byte {
+	return pbkdf(hash, u, v, append([]byte{}, salt...), append([]byte{}, password...), r, ID, size)
+}
+
+// VerifSha1Sum is the hash the package itself passes to pbkdf.
+func VerifSha1Sum(in []byte) []byte { return sha1Sum(in) }
